@@ -4,6 +4,7 @@ import RV.C03.ListLemmas
 import RV.C03.LayoutLemmas
 import RV.C03.PreLemmas
 import RV.C03.NTLineLemmas
+import RV.C03.BaseRelLemmas
 /-
   C03 — property theorems: "serialise then parse gives back the same RDF graph".
 
@@ -407,5 +408,25 @@ theorem hext_row_roundtrip : Statement_hext_row_roundtrip := by
     have h1 : xsdString ≠ globalId := by decide
     have h2 : xsdString ≠ localId := by decide
     simp [hextObj, hextParseObj, norm11, h1, h2]
+
+/-! ## Base relativisation (`_strippable_base`), on path segments -/
+
+/-- Where the decision of `_strippable_base` holds (base ending in "/", no dot segment in the base path nor in the
+    rest) the rest, resolved against the base by RFC 3986 §5.2.2, is the IRI again: `base ++ rest`.
+    (That the rest parses as a scheme-less, authority-less relative-path reference is not modelled: oracle only.) -/
+def Statement_strip_resolves : Prop :=
+  ∀ (b : BaseIri) (r : RelRef), strippableSeg b r = true → resolveRel b r = renderBase b ++ renderRel r
+
+theorem strip_resolves : Statement_strip_resolves := strip_resolves'
+
+/-- Both dot-segment conditions are needed (the second one was missing before fix "…below a base with dot
+    segments"): `x` against `http://ex/a/./` resolves to `http://ex/a/x`, and `../x` against `http://ex/a/` to
+    `http://ex/x` — neither is base ++ rest. -/
+theorem strip_needs_nodot :
+    resolveRel ⟨"http://ex".toList, ["a".toList, ".".toList, []]⟩ ⟨["x".toList], []⟩
+      ≠ renderBase ⟨"http://ex".toList, ["a".toList, ".".toList, []]⟩ ++ renderRel ⟨["x".toList], []⟩ ∧
+    resolveRel ⟨"http://ex".toList, ["a".toList, []]⟩ ⟨["..".toList, "x".toList], []⟩
+      ≠ renderBase ⟨"http://ex".toList, ["a".toList, []]⟩ ++ renderRel ⟨["..".toList, "x".toList], []⟩ := by
+  decide
 
 end RV.C03
